@@ -3,4 +3,4 @@ From Coq Require Import Extraction ExtrOcamlBasic.
 From Tele Require Import Lib.Bytes Lib.Digits Gen.Consts Model.Stack Model.Crash.
 Extraction Language OCaml.
 Extraction "crash_model.ml" parse_stack_pcs counter_name view finish finish_pcs name_of_pcs is_err
-  parse_uint0 scan_sentinel get_symbol get_pc lit_no_running c_crash_prefix encode_frames encode_raw render_plain decode_stack.
+  parse_uint0 scan_sentinel get_symbol get_pc lit_no_running c_crash_prefix encode_frames encode_raw render_plain decode_stack monitor_child.
